@@ -338,9 +338,16 @@ def verify_contract(c: Contract, cfg_label: str, cfg: dict, repo_src: str, regis
         fnode, module = c.load(ctx)
         rr.source_file = module.__file__
         env = {}
+        size = cfg.get("_size")
         for pname, spec in c.params.items():
             if pname in cfg:
                 env[pname] = cfg[pname]
+            elif size is not None and pname in getattr(c, "size_params", {}):
+                # bounded refutation search (never used to claim a pass): concrete small sizes unroll the loops
+                env[pname] = c.size_params[pname](size)
+                ctx.inputs[pname] = env[pname]
+            elif size is not None and pname in getattr(c, "size_seqs", {}) and not isinstance(spec, tuple):
+                env[pname] = make_value(ex, st, spec(n=c.size_seqs[pname](size)), pname)
             else:
                 env[pname] = make_value(ex, st, spec, pname)
         c.setup(ex, st, cfg)
